@@ -42,6 +42,12 @@ Guards (what keeps the oracle from demanding more than the property):
 * perturbed statements may be ill-typed (column order swapped in INSERT..SELECT, CAST type
   changed inside a CASE); a TypeError/ValueError from a result processor while fetching is
   recorded as the outcome and compared across cache states like rows are.
+
+Candidate genuine defect reported on the unchanged tree:
+``cache-vs-disabled:select/orm:loader-criteria-callable-bind`` -- relationship criteria
+``Rel.and_(col <op> bindparam(None, callable_=...))`` in subqueryload / selectinload: when the parent
+statement is a cache hit the eager SELECT receives ``None`` (``_OverrideBinds.__init__`` copies
+``v.value`` instead of ``v.effective_value``; one-line fix validated).
 """
 from __future__ import annotations
 
@@ -313,6 +319,24 @@ def _norm_value(v, depth=0):
 _RELS = {"A": ("bs",), "B": ("a", "cs"), "C": ("b",)}
 
 
+def _has_callable_bind(node):
+    if isinstance(node, list):
+        if node and node[0] in ("bind", "abind") and isinstance(node[-1], dict) and node[-1].get("callable"):
+            return True
+        return any(_has_callable_bind(x) for x in node)
+    if isinstance(node, dict):
+        return any(_has_callable_bind(x) for x in node.values())
+    return False
+
+
+def _witness_feature(spec):
+    """a structural feature of the witness that identifies a known defect class (part of the mechanism)"""
+    for o in spec.get("options", ()) or ():
+        if len(o) > 3 and o[3] is not None and o[0] != "loader_criteria" and _has_callable_bind(o[3]):
+            return "loader-criteria-callable-bind"
+    return None
+
+
 def _execute(env, engine, spy, spec, stmt, params, is_orm_entity):
     from sqlalchemy import exc as sa_exc
 
@@ -457,8 +481,9 @@ def part_exec(ctx, env, G):
                         what = "outcome-kind"
                     else:
                         what = "rows"
+                    feat = _witness_feature(it["spec"])
                     ctx.violation(
-                        f"{name}-cache-vs-disabled:{what}:{kind}",
+                        f"cache-vs-disabled:{kind}:{feat}" if feat else f"{name}-cache-vs-disabled:{what}:{kind}",
                         f"{what} differ between cache disabled and {name} cache for a {kind} statement "
                         f"(perturbation tag {it['tag']}): disabled={ra!r:.300} {name}={other!r:.300}",
                         {"spec": it["spec"], "values": it["values"], "params": it["params"], "disabled": ra, name: other,
